@@ -210,7 +210,7 @@ class ObliviousIterator():
                 return self.ix
             else:
                 if self.checkstopmax:
-                    (self.ctx.stack[-1].cond&(self.ix!=self.stop)).assert_zero("stop exceeds max")
+                    (self.ctx.stack[-1].cond&(self.ix!=self.stop)).lc.assert_zero("stop exceeds max")
                 raise StopIteration
 #        if self.ix==self.max:
             # make sure that ix was not >max
